@@ -27,6 +27,9 @@ func (g *projGen) security() []pAnnot {
 	}
 	for k := 1 + r.Intn(2); k > 0; k-- {
 		a := pAnnot{Name: "Security", Value: rng.Pick(r, g.schemes).Name}
+		if r.Chance(1, 30) {
+			a.Value = strings.ToUpper(a.Value[:1]) + a.Value[1:] // an undeclared scheme: differs by letter case only
+		}
 		if r.Bool() {
 			sc := []any{}
 			for j := 1 + r.Intn(2); j > 0; j-- {
@@ -61,7 +64,7 @@ func (g *projGen) method(ci, mi int, prefixParams []string, types []pType, file 
 	route := "/" + strings.Join(segs, "/")
 	m.Annots = append(m.Annots, pAnnot{Name: "Method", Value: verb}, pAnnot{Name: "Route", Value: route})
 	if r.Chance(1, 6) {
-		m.Annots = append(m.Annots, pAnnot{Name: "Hidden"})
+		m.Annots = append(m.Annots, pAnnot{Name: "Hidden", Value: rng.Pick(r, []string{"", "", "internal", "x"})})
 	}
 	if r.Chance(1, 6) {
 		m.Annots = append(m.Annots, pAnnot{Name: "Deprecated", Desc: rng.Pick(r, []string{"", "use v2"})})
@@ -107,9 +110,9 @@ func (g *projGen) method(ci, mi int, prefixParams []string, types []pType, file 
 			props["name"] = alias
 		}
 		if r.Chance(1, 3) && kind != "Body" {
-			props["validate"] = rng.Pick(r, []string{"required", "gt=0", "min=1"})
+			props["validate"] = rng.Pick(r, []string{"required", "gt=0", "min=1", "required_with=Other", "omitempty"})
 			if strings.Contains(ptype, "string") {
-				props["validate"] = rng.Pick(r, []string{"required", "email", "min=2"})
+				props["validate"] = rng.Pick(r, []string{"required", "email", "min=2", "oneof=required optional", "required_without=Other"})
 			} else if strings.Contains(ptype, "bool") || strings.Contains(ptype, ".") || ptype[0] >= 'A' && ptype[0] <= 'Z' || strings.HasPrefix(ptype, "*") && (ptype[1] >= 'A' && ptype[1] <= 'Z') {
 				props["validate"] = "required"
 			}
@@ -328,7 +331,7 @@ func genProject(r *rng.R, nPerturb int) (pProject, []string) {
 		p.Config.Schemes = []irScheme{}
 	}
 	if ns > 0 && r.Bool() {
-		p.Config.DefaultSecurity = &irSecComp{Name: g.schemes[r.Intn(ns)].Name, Scopes: []string{"read"}}
+		p.Config.DefaultSecurity = &irSecComp{Name: g.schemes[r.Intn(ns)].Name, Scopes: []string{"read"}[:r.Intn(2)]}
 	}
 	p.Config.Enforce = r.Chance(1, 3)
 	// types
@@ -431,8 +434,40 @@ func genProj(seed uint64, n int, tier string, emit func(string, []string, any)) 
 		if os.Getenv("VH_TYPES") != "" {
 			p, applied = genTypesProject(cr)
 		}
-		if validOnly {
+		if validOnly && os.Getenv("VH_KEEP_ENFORCE") == "" {
 			p.Config.Enforce = false
+		}
+		if os.Getenv("VH_KEEP_ENFORCE") != "" && len(p.Config.Schemes) > 0 && cr.Chance(1, 3) {
+			// the enforce scenario: nothing inherited, every visible route secured on its own, hidden routes
+			// secured or not - an unsecured hidden route must get the project refused
+			p.Config.Enforce = true
+			p.Config.DefaultSecurity = nil
+			strip := func(as []pAnnot) []pAnnot {
+				o := []pAnnot{}
+				for _, a := range as {
+					if a.Name != "Security" {
+						o = append(o, a)
+					}
+				}
+				return o
+			}
+			for ci := range p.Controllers {
+				p.Controllers[ci].Annots = strip(p.Controllers[ci].Annots)
+				for mi := range p.Controllers[ci].Methods {
+					m := &p.Controllers[ci].Methods[mi]
+					hidden, secured := false, false
+					for _, a := range m.Annots {
+						hidden = hidden || a.Name == "Hidden"
+						secured = secured || a.Name == "Security"
+					}
+					if hidden && cr.Bool() {
+						m.Annots = strip(m.Annots)
+					} else if !secured {
+						m.Annots = append(m.Annots, pAnnot{Name: "Security", Value: p.Config.Schemes[0].Name})
+					}
+				}
+			}
+			applied = append(applied, "enforce-scenario")
 		}
 		if allEngines {
 			p.Engines = []string{"gin", "echo", "mux", "chi", "fiber"}
